@@ -281,6 +281,9 @@ def c18_params(budget):
         yield {'what': 'blocking-read', 'kind': kind, 'connect_t': 1.0}
         yield {'what': 'blocking-read', 'kind': kind, 'connect_t': None}
         yield {'what': 'peer-abort', 'kind': kind}
+        yield {'what': 'poll', 'kind': kind}
+        for req in (65536, 4096):
+            yield {'what': 'stream', 'kind': kind, 'req': req}
         yield {'what': 'session', 'kind': kind}
 
 
@@ -445,6 +448,68 @@ def c18_run(p):
         return out
     if p['what'] == 'session':
         return c18_session(p)
+    if p['what'] == 'poll':
+        data = b'already here'
+
+        def script(conn, peer):
+            conn.sendall(data)
+            peer.event('done').wait(5)
+        peer = Peer(script)
+        c = TcpClient(p['kind'], peer.port)
+        try:
+            c.call('connect', 1.0)
+            if p['kind'] == 'sync':
+                real_time.sleep(0.3)
+            else:
+                import asyncio
+                c.loop.run_until_complete(asyncio.sleep(0.3))      # the event loop runs, so the bytes reach the stream reader's buffer
+            r = outcome(lambda: c.call('bulk_read', 100, 0))
+            if r != ('ok', data):
+                out.append(fail(p, 'a read with timeout 0 is a poll: bytes that have already arrived must be returned', data, r))
+        finally:
+            peer.event('done').set()
+            c.finish()
+            peer.close()
+        return out
+    if p['what'] == 'stream':
+        total = 6 << 20
+        block = bytes((i * 31 + 7) % 251 for i in range(1 << 16))
+
+        def script(conn, peer):
+            conn.setsockopt(socket.SOL_SOCKET, socket.SO_SNDBUF, 1 << 20)
+            sent = 0
+            try:
+                while sent < total:
+                    conn.sendall(block)
+                    sent += len(block)
+            except OSError:
+                pass
+            peer.event('done').wait(5)
+        peer = Peer(script)
+        c = TcpClient(p['kind'], peer.port)
+        try:
+            c.call('connect', 1.0)
+            got = 0
+            deadline = real_time.time() + 25
+            while got < total and real_time.time() < deadline:
+                r = outcome(lambda: c.call('bulk_read', p['req'], 1.0))
+                if r[0] != 'ok':
+                    out.append(fail(p, 'bulk_read must deliver the bytes of a fast peer', 'bytes', r))
+                    break
+                if len(r[1]) > p['req']:
+                    out.append(fail(p, 'bulk_read must return at most the requested number of bytes (peer streaming faster than we read)', p['req'], len(r[1])))
+                    break
+                k = got % len(block)
+                want = (block * 3)[k:k + len(r[1])]
+                if r[1] != want:
+                    out.append(fail(p, "successive reads must return the peer's bytes in order without loss or duplication", 'in order', 'mismatch at offset %d' % got))
+                    break
+                got += len(r[1])
+        finally:
+            peer.event('done').set()
+            c.finish()
+            peer.close()
+        return out
     if p['what'] == 'blocking-read':
         data = b'late but complete'
 
@@ -791,6 +856,8 @@ def c20_params(budget):
     for k in range(0, 14):
         for cls in ('USBErrorIO', 'USBErrorNoDevice', 'USBErrorTimeout'):
             yield {'what': 'errors', 'k': k, 'cls': cls}
+    for size, short in ((50000, 10000), (40000, 16384), (70000, 1000), (16385, 16384)):
+        yield {'what': 'bigwrite', 'size': size, 'short': short}
     yield {'what': 'kernel-driver'}
     for k in range(4, 9):
         yield {'what': 'unplug', 'k': k}
@@ -893,6 +960,25 @@ def c20_run(p):
                     out.append(fail(p, '%s after close must not touch the backend' % name, 'no backend call', fu.log[n_before:]))
         for pr in fu.problems:
             out.append(fail(p, 'libusb rule broken: ' + pr))
+        return out
+    if p['what'] == 'bigwrite':
+        fu = FakeUsb(usb1, 1, 0x81, 0x02, short=p['short'])
+        t = Usb(fu, FakeSetting(1, [0x81, 0x02]))
+        t.connect(1.0)
+        sent = bytes((i * 17 + 3) % 253 for i in range(p['size']))
+        rest = sent
+        guard = 0
+        while rest and guard < 10000:
+            guard += 1
+            n = t.bulk_write(rest, 1.0)
+            if not isinstance(n, int) or n <= 0 or n > len(rest):
+                out.append(fail(p, 'bulk_write must return the number of bytes the backend accepted', '1..%d' % len(rest), n))
+                break
+            rest = rest[n:]
+        if not out and bytes(fu.tx) != sent:
+            k = next((i for i, (a, b) in enumerate(zip(fu.tx, sent)) if a != b), min(len(fu.tx), len(sent)))
+            out.append(fail(p, 'what the caller was told was written must be what reached the OUT endpoint, in order (large write, short transfers)',
+                            len(sent), 'first difference at offset %d, %d bytes on the wire' % (k, len(fu.tx))))
         return out
     if p['what'] == 'kernel-driver':
         fu = FakeUsb(usb1, 1, 0x81, 0x02)
